@@ -32,6 +32,6 @@ Init == l = 0 /\ TLCSet(2, {})
 Step == l <= N /\ l' = l + 1
 Spec == Init /\ [][Step]_l
 Check == /\ TLCSet(1, l)
-         /\ (l = 0 \/ l > N \/ ("crash" \in DOMAIN Rec[l] /\ PROP # "C01") \/ Judge(Rec[l]) \/ TLCSet(2, TLCGet(2) \cup {<<l, KFClass(PROP, Rec[l])>>}))
+         /\ (l = 0 \/ l > N \/ ("crash" \in DOMAIN Rec[l] /\ PROP # "C01") \/ ("oversize" \in DOMAIN Rec[l] /\ PROP # "C01") \/ Judge(Rec[l]) \/ TLCSet(2, TLCGet(2) \cup {<<l, KFClass(PROP, Rec[l])>>}))
 Report == PrintT(<<"JUDGED", TLCGet(1) - 1, "BAD", TLCGet(2)>>) /\ TLCGet(1) = N + 1
 =============================================================================
